@@ -21,6 +21,13 @@ from mc.oracles import scgf
 PRISTINE = {'ctx_none': True, 'lock_free': True, 'probe_none': True}
 
 
+# add:<definition>    build, then SynthDef.add()
+# deco:<definition>   build through the @synthdef decorator (build + add)
+# store:<definition>  build, store() into a scratch directory, read the files
+# late:<definition>   build, other library use, only then write the bytes
+LIB_ROUTES = ('add:', 'deco:', 'store:')
+
+
 def op_class(op):
     """Class of an operation id, used to keep disagreement kinds apart."""
     if op == 'f:intr':
@@ -31,6 +38,10 @@ def op_class(op):
         return 'good-build'
     if op.startswith('desc:'):
         return 'desc-read'
+    if op.startswith(LIB_ROUTES):
+        return 'def-registration'
+    if op.startswith('late:'):
+        return 'deferred-write'
     if op == 'bare':
         return 'outside-units'
     raise ValueError(op)
@@ -47,6 +58,8 @@ def ref_key(op):
             if key.endswith(suffix):
                 key = key[:-len(suffix)]
         return key
+    if op.startswith(LIB_ROUTES + ('late:',)):
+        return op.split(':', 1)[1]
     return None
 
 
@@ -156,6 +169,14 @@ def selftest():
         ['outside-unit-attached-to-definition']
     assert ref_key('desc:g:ctl:nokeep') == 'g:ctl'
     assert ref_key('desc:g:ctl:bad') == 'g:ctl' and ref_key('bare') is None
+    assert ref_key('add:g:ctl') == 'g:ctl' and ref_key('late:g:p0') == 'g:p0'
+    assert ref_key('deco:g:s1') == 'g:s1' and ref_key('store:g:sh1') == 'g:sh1'
+    assert [d[0] for d in judge_step('add:g:ctl', refs, dict(
+        PRISTINE, outcome=['ok', 'bb', 'add-ok'], ctx_none=False))] == \
+        ['context-left-set-after-def-registration']
+    assert [d[0] for d in judge_step('late:g:p0', refs, dict(
+        PRISTINE, outcome=['ok', 'ab']))] == \
+        ['build-bytes-differ-from-reference']
     assert judge_step('bare', refs, dict(PRISTINE,
                                          outcome=['bare', True])) == []
     assert [d[0] for d in judge_step('bare', refs, dict(
